@@ -50,8 +50,8 @@ func (vc *VC) specCtx(fr *Frame, n *Node, env Env) *SpecCtx {
 		t := fv.Type().(*types.Pointer).Elem()
 		lv := vc.addrOf(fr, n, fv)
 		if lv != nil {
-			// captured variable: value at entry
-			sc.names[fv.Name()] = Val{T: vc.load(fr.entryEnv, lv), Ty: t}
+			// captured variable: read in the state the expression is evaluated in (old(...) gives the entry value)
+			sc.names[fv.Name()] = Val{Ty: t, LV: lv}
 		}
 	}
 	return sc
